@@ -816,6 +816,10 @@ func (tic *TermInCommittee) HandleNewView(nvm *interfaces.NewViewMessage) {
 		// rewrite this mess
 		latestVoteBlockHash := latestVote.SignedHeader().PreparedProof().PreprepareBlockRef().BlockHash()
 		if latestVoteBlockHash != nil {
+			if !ppMessageContent.SignedHeader().BlockHash().Equal(latestVoteBlockHash) {
+				tic.logger.Info("LHMSG RECEIVED NEW_VIEW IGNORE - NewView.Preprepare block hash differs from the block hash of the latest prepared proof")
+				return
+			}
 			isValidDigest := tic.blockUtils.ValidateBlockCommitment(nvmHeader.BlockHeight(), nvm.Block(), latestVoteBlockHash)
 			if !isValidDigest {
 				//this.logger.log({ subject: "Warning", message: `blockHeight:[${blockHeight}], view:[${view}], HandleNewView from "${senderId}", the given _Block (PP._Block) doesn't match the best _Block from the VCProof` });
